@@ -241,10 +241,10 @@ def _run_history_once(ctx, binary, hist, keys, idx, strace, variant, predir, cho
     shutil.rmtree(root, ignore_errors=True)
     os.makedirs(os.path.join(root, "bin"))
     if predir:
-        # the key directory exists already, unrestricted and owned by somebody else
+        # the key directory exists already: some owner, some mode (see PREDIR_KINDS)
         os.makedirs(os.path.join(root, "keys"))
-        os.chmod(os.path.join(root, "keys"), 0o755)
-        os.chown(os.path.join(root, "keys"), 1000, 1000)
+        os.chmod(os.path.join(root, "keys"), predir["mode"])
+        os.chown(os.path.join(root, "keys"), predir["uid"], predir["gid"])
     exe = os.path.join(root, "bin", "c12")
     try:
         os.link(binary, exe)
@@ -540,7 +540,7 @@ def model_eval(ctx, variant, hists, name="cases", predirs=None, chown_oks=None, 
     chown_oks = chown_oks or [True] * len(hists)
     keys = keys or [None] * len(hists)
     exprs = ["(vector (run_env %s %s %s %s), map sys_code (sys_trace %s %s %s %s))" % (
-                coq_variant(variant), cbool(pd), cbool(co), coq_history(h, ks), coq_variant(variant), cbool(pd), cbool(co), coq_history(h, ks))
+                coq_variant(variant), cbool(bool(pd)), cbool(co), coq_history(h, ks), coq_variant(variant), cbool(bool(pd)), cbool(co), coq_history(h, ks))
              for h, pd, co, ks in zip(hists, predirs, chown_oks, keys)]
     res = vplib.coq_eval(ctx, REQ, exprs, shard=25, name=name)
     out = []
@@ -569,10 +569,39 @@ def trace_codes(ev):
     return out
 
 
-def prop_trace(ev, predir=False, chown_ok=True):
+# what the agent may find when it first starts (None = no key directory yet)
+PREDIR_KINDS = [
+    {"uid": 1000, "gid": 1000, "mode": 0o755},      # another account's, unrestricted
+    {"uid": 65534, "gid": 65534, "mode": 0o700},    # pre-created by a local user with the "right" mode: the OWNER is wrong
+    {"uid": 0, "gid": 65534, "mode": 0o700},        # root's, foreign group, mode already 0700
+    {"uid": 0, "gid": 0, "mode": 0o755},            # root's, unrestricted
+    {"uid": 0, "gid": 0, "mode": 0o700},            # already as it should be
+    {"uid": 65534, "gid": 0, "mode": 0o750},
+]
+
+
+def prop_stat(root, chown_ok=True):
+    """the same sentence judged on the final state: a key directory that holds a key file is 0700 and (where chown
+    can succeed) root:root"""
+    d = os.path.join(root, "keys")
+    try:
+        names = os.listdir(d)
+        st = os.stat(d)
+    except OSError:
+        return None
+    if not any(n.endswith(".key") for n in names):
+        return None
+    if st.st_mode & 0o7777 != 0o700:
+        return "the key directory holds key files and has mode %s, not 0700" % oct(st.st_mode & 0o7777)
+    if chown_ok and (st.st_uid, st.st_gid) != (0, 0):
+        return "the key directory holds key files and is owned by %d:%d, not root:root" % (st.st_uid, st.st_gid)
+    return None
+
+
+def prop_trace(ev, predir=None, chown_ok=True):
     """the property's second sentence on an observed syscall trace: the key directory is 0700 -- and, where
     the environment lets chown succeed, root-owned -- (and nothing undid that) before anything is created in it"""
-    chowned, mode = False, (0o755 if predir else None)
+    chowned, mode = (False, None) if not predir else ((predir["uid"], predir["gid"]) == (0, 0), predir["mode"])
     for name, arg in ev:
         if name == "rmdir":
             chowned, mode = False, None
@@ -778,13 +807,18 @@ def run(ctx):
         hists.append(h)
         shapes.append(sh)
     canaries = [make_canaries(rng, h, sh) for h, sh in zip(hists, shapes)]
-    predirs = [False] * n_fixed + [rng.random() < 0.3 for _ in range(n_random)]
-    predirs[3] = True
+    predirs = [None] * n_fixed + [rng.choice(PREDIR_KINDS) if rng.random() < 0.35 else None for _ in range(n_random)]
+    predirs[3] = PREDIR_KINDS[0]
+    predirs[2] = PREDIR_KINDS[1]        # latch / rotate / disable / restart on a 0700 directory of another account
+    predirs[5] = PREDIR_KINDS[2]
+    predirs[6] = PREDIR_KINDS[3]
     # environment fault: chown is refused (only meaningful on a directory somebody else owns)
     # (not combined with a removal of the directory: a directory the agent re-creates is its own, and chown
     #  root:root on it succeeds even without CAP_CHOWN, so "chown is refused" is no longer a property of the run)
-    chown_fails = [pd and rng.random() < 0.4 and not any(o[0] == "rmdir" for o in h) for pd, h in zip(predirs, hists)]
-    predirs[4] = True
+    # (nor with a root-owned directory: root may chown its own directory to its own group without CAP_CHOWN)
+    chown_fails = [bool(pd) and pd["uid"] != 0 and rng.random() < 0.4 and not any(o[0] == "rmdir" for o in h)
+                   for pd, h in zip(predirs, hists)]
+    predirs[4] = PREDIR_KINDS[0]
     chown_fails[4] = True
     variants = [rng.randrange(10) for _ in hists]
     straced = set(range(n_fixed)) | set(rng.sample(range(len(hists)), min(n_strace, len(hists))))
@@ -797,13 +831,14 @@ def run(ctx):
         hexness = key_ids(hists[i])
         obs, det, nfiles = scan(root, res, canaries[i], hexness)
         tr = keydir_trace(root) if i in straced else None
+        st_why = prop_stat(root, not chown_fails[i])
         outside = writes_outside(root) if i in straced else []
         ok = all(r.get("ok") for r in res) and len(res) == len(segments(hists[i]))
         err = next((r.get("error") for r in res if not r.get("ok")), None)
         panics = [p for r in res for p in (r.get("panics") or [])]
         if not os.environ.get("C12_KEEP"):
             shutil.rmtree(root, ignore_errors=True)
-        return {"obs": obs, "details": det, "nfiles": nfiles, "trace": tr, "outside": outside, "ok": ok, "error": err, "panics": panics}
+        return {"obs": obs, "details": det, "nfiles": nfiles, "trace": tr, "stat_why": st_why, "outside": outside, "ok": ok, "error": err, "panics": panics}
 
     with ThreadPoolExecutor(max_workers=12) as ex:
         impl = list(ex.map(one, range(len(hists))))
@@ -838,6 +873,8 @@ def run(ctx):
         if im["obs"] != mvec:
             disagreements.append({"case": case, "model": {k: v for k, v in mvec.items() if v},
                                   "impl": {k: v for k, v in im["obs"].items() if v}, "where": im["details"][:12]})
+        if im["stat_why"]:
+            failures.append({"case": dict(case, key_directory=True), "why": im["stat_why"], "impl": "stat of the key directory after the run"})
         if im["trace"] is not None:
             if trace_codes(im["trace"]) != mtr:
                 disagreements.append({"case": case, "model": mtr, "impl": trace_codes(im["trace"]), "what": "key directory syscall order"})
@@ -905,7 +942,8 @@ def run(ctx):
             "malformed_key_bodies": sum(len(malformed_kids(h)) for h in hists),
             "attest_failures": sum(1 for h in hists for o in h if o[0] == "poll" and o[3] == "err"),
             "histories_with_any_leak": sum(1 for im in impl if any(im["obs"][s] for s in SINKS if s not in ALLOWED)),
-            "key_dir_preexisting": sum(1 for p in predirs if p), "chown_refused": sum(1 for c in chown_fails if c), "decoy_canaries": sum(1 for c in canaries for k in c if k >= DECOY0),
+            "key_dir_preexisting": sum(1 for p in predirs if p),
+            "key_dir_preexisting_kinds": {"%d:%d %o" % (k["uid"], k["gid"], k["mode"]): sum(1 for p in predirs if p == k) for k in PREDIR_KINDS}, "chown_refused": sum(1 for c in chown_fails if c), "decoy_canaries": sum(1 for c in canaries for k in c if k >= DECOY0),
         },
     })
     ctx.assumptions += [
